@@ -250,8 +250,8 @@ theorem shared_items_leaf (ci : ClassInfo) (obj : Obj) (hok : CopyOK objs0 ci ob
   | fitness => exact ImmLeaf_of_isAtom _ c ((hf hk).2.2 c hcm)
   | cfitness => exact ImmLeaf_of_isAtom _ c ((hcf hk).2.2.2 c hcm)
   | tree => exact htree hk c hcm
-  | nparr => exact ImmLeaf_of_isAtom _ c (harr (Or.inl hk) c hcm)
-  | pyarr => exact ImmLeaf_of_isAtom _ c (harr (Or.inr hk) c hcm)
+  | nparr => simp [hk, Kind.copyItems] at hc
+  | pyarr => exact ImmLeaf_of_isAtom _ c (harr hk c hcm)
 
 theorem items_ok (hcl : Closed objs0 N0) (objs : Oid → Option Obj) (hk0 : Keeps objs0 objs)
     (j : Nat) (x : Oid) (obj : Obj) (ci : ClassInfo) (hobj : objs0 x = some obj)
